@@ -27,7 +27,7 @@ def run(ctx, args):
     ncases = int(m.group(1))
     # Leg T: TLC judges every step of every execution
     fails, r = ctx.validate("Trace_Pool", "Trace_Pool.cfg", trace)
-    warns = re.findall(r'<<"WARN", (\d+), "([^"]*)", "([^"]*)">>', r["out"])
+    warns = [(w["line"], w["case"], w["what"]) for w in r["warns"]]
     ctx.traces = ncases
     ctx.evaluations = ncases
     ctx.distinct = nbeh
